@@ -468,6 +468,10 @@ def scenarios(T, rng, n_random):
              {'kind': 'valid', 'path': './tb', 'lists': random_lists(T, rng, unknown_in='opt')},
              {'kind': 'valid', 'path': './tb', 'lists': random_lists(T, rng, unknown_in='vul')},
              {'kind': 'valid', 'path': './tb', 'lists': random_lists(T, rng, unknown_in='qa')},
+             # words a configuration language might give a meaning to, next to an unknown name: neither is a documented name
+             {'kind': 'valid', 'path': './tb', 'lists': {'opt': ['all', 'no_such_optimization'], 'vul': [], 'qa': []}},
+             {'kind': 'valid', 'path': './tb', 'lists': {'opt': ['sstore'], 'vul': ['bogus', 'ALL'], 'qa': ['*', 'none']}},
+             {'kind': 'valid', 'path': './tb', 'lists': {'opt': ['default', 'sstore', 'not_a_name'], 'vul': ['floating_pragma'], 'qa': ['everything', 'nope']}},
              # very many unknown names (a count is not an exit status: only its low 8 bits reach the parent process)
              {'kind': 'valid', 'path': './tb', 'lists': {'opt': ['bogus_%d' % i for i in range(256)], 'vul': [], 'qa': []}},
              {'kind': 'valid', 'path': './tb', 'lists': {'opt': ['nope%d' % i for i in range(100)] + ['sstore'], 'vul': ['x%d' % i for i in range(100)],
